@@ -484,6 +484,11 @@ class Facts:
         at = c.as_atom()
         if at is None:
             return None
+        if at.op == "const":      # Python truthiness of literal None / False / True
+            if at.args[0] in ("None", "False"):
+                return False
+            if at.args[0] == "True":
+                return True
         if at.op == "not":
             v = self.lookup(at.args[0])
             return None if v is None else not v
@@ -591,6 +596,9 @@ def mk_ite(c: Rat, a, b, _restricted=False):
     cst = c.as_const()
     if cst is not None:
         return a if cst != 0 else b
+    lit = Facts().lookup(c)
+    if lit is not None:
+        return a if lit else b
     if not _restricted:
         a = restrict(a, Facts().assume(c, True))
         b = restrict(b, Facts().assume(c, False))
